@@ -114,7 +114,9 @@ def handle (cfg : Cfg) (line : String) : String :=
   | ["factory", code] =>
     match code.toNat? with
     | some k => "factory " ++ toString k ++ " " ++ (match Spec.lookupCode Gen.factoryTable k with
-        | some n => n
+        | some n => n ++ " type=" ++ (match Gen.allCodecs.find? (·.name == n) with
+            | some c => toString c.ctorType
+            | none => "?")
         | none => "none")
     | none => "bad-request"
   | ["dflt", cn] =>
@@ -234,6 +236,7 @@ def handleApi (toks : List String) : String :=
       let s := acc.1
       let o : Option Api.Op := match op with
         | "om" => some .openMissing | "ou" => some .openUnwritable | "oi" => some (.openIn nobjs) | "oo" => some .openOut
+        | "ob" => some .openOut | "ot" => some .openOut | "ib" => some (.openIn nobjs)      -- the same sessions with further openmode bits
         | "r" => some .read | "w" => some .write | "c" => some .close | "d" => some .destroy | _ => none
       match o with
       | none => acc
